@@ -27,50 +27,17 @@ import (
 
 func main() { lib.Main("C15", run) }
 
-// Event is one line of the recorded trace.
-type Event struct {
-	Ev  string        `json:"ev"`
-	Ast *elvcore.Node `json:"ast"`
-	Out []any         `json:"out"`
-	Exc elvcore.J     `json:"exc"`
-	Src string        `json:"src"` // rendered source (ignored by the specification)
-}
+type Event = elvcore.Event
 
-func resetEvent() Event {
-	return Event{Ev: "reset", Ast: elvcore.Chunk(), Out: []any{}, Exc: elvcore.J{"c": "ok"}}
-}
+func resetEvent() Event { return elvcore.ResetEvent() }
 
 // features covered by spec and generator at this point of the growth
-var features = elvcore.Features{Control: true, Fn: true, Exc: true, Logic: true, XCap: true, RestOpts: true, Pipes: true, ErrRate: 1}
+var features = elvcore.CoreFeatures
 
-// runProgram renders and runs the chunks of one program on a fresh Evaler and records the events.
 func runProgram(chunks []*elvcore.Node) ([]Event, error) {
-	ev := elv.New()
-	evs := []Event{resetEvent()}
-	for _, ch := range chunks {
-		src, err := elvcore.CheckRender(ch)
-		if err != nil {
-			return nil, lib.Infra("renderer defect: %v", err)
-		}
-		o := elv.RunCtx(ev, src, nil, 20*time.Second)
-		if o.Timeout {
-			return nil, lib.Infra("evaluation of a bounded program did not finish: %s", src)
-		}
-		if o.Panic != "" {
-			return nil, lib.Infra("evaluation panicked (C17's subject, not judged here): %s\n%s", src, o.Panic)
-		}
-		switch elvcore.ErrKind(o.Err) {
-		case "parse", "compile", "other":
-			return nil, lib.Infra("generated chunk has a static error (generator defect): %v\n%s", o.Err, src)
-		}
-		cause, ok := elvcore.ClassifyErr(o.Err)
-		if !ok {
-			return nil, lib.Infra("unclassifiable exception %v from: %s", cause["text"], src)
-		}
-		if len(o.Bytes) > 0 {
-			return nil, lib.Infra("core program wrote bytes %q: %s", o.Bytes, src)
-		}
-		evs = append(evs, Event{Ev: "chunk", Ast: ch, Out: elvcore.ProjectValues(o.Values), Exc: cause, Src: src})
+	evs, err := elvcore.RunProgram(chunks)
+	if err != nil {
+		return nil, lib.Infra("%v", err)
 	}
 	return evs, nil
 }
@@ -292,12 +259,19 @@ func run(c *lib.Ctx) error {
 		return err
 	}
 	oom := 0
+	shrunk := 0
+	oomWhy := map[string]int{}
 	for _, b := range j.bad {
 		kind, _ := b.Info[0].(string)
 		if kind == "oom" {
 			oom++
-			if oom <= 8 {
-				c.Logf("out of model: %s", j.flat[b.Index].Src)
+			why := "?"
+			if len(b.Info) > 1 {
+				why, _ = b.Info[1].(string)
+			}
+			oomWhy[why]++
+			if oom <= 6 {
+				c.Logf("out of model (%s): %.200s", why, j.flat[b.Index].Src)
 			}
 			continue
 		}
@@ -308,11 +282,30 @@ func run(c *lib.Ctx) error {
 			want, _ = b.Info[1].(string)
 		}
 		got, _ := json.Marshal(map[string]any{"out": e.Out, "exc": e.Exc})
-		c.Reject("elvcore:"+e.Exc["c"].(string), fmt.Sprintf("chunk `%s`: real Evaler gave %s; reference semantics prescribes %s", e.Src, got, want),
-			j.flat[j.off[gi]:b.Index+1])
+		what := fmt.Sprintf("chunk `%s`: real Evaler gave %s; reference semantics prescribes %s", e.Src, got, want)
+		kase := j.flat[j.off[gi] : b.Index+1]
+		if shrunk < 3 && os.Getenv("VERIF_C15_NOSHRINK") == "" {
+			// minimise the program (verdicts of the reductions come from TLC as well)
+			shrunk++
+			var prog []*elvcore.Node
+			for _, pe := range kase[1:] {
+				prog = append(prog, pe.Ast)
+			}
+			min := shrink(c, prog, 8)
+			if evs, err := elvcore.RunProgram(min); err == nil {
+				var srcs []string
+				for _, pe := range evs[1:] {
+					srcs = append(srcs, pe.Src)
+				}
+				what += fmt.Sprintf("; minimal program still rejected: %s", strings.Join(srcs, " ;; "))
+				kase = evs
+			}
+		}
+		c.Reject("elvcore:"+e.Exc["c"].(string), what, kase)
 	}
 	c.AddTraces(nprog)
 	c.Set("out_of_model_programs", oom)
+	c.Set("out_of_model_reasons", oomWhy)
 	c.Logf("V: %d programs, %d chunks (%d with exception), %d programs left the model, %d rejected", nprog, nchunks, excs, oom, len(j.bad)-oom)
 	if oom*2 > nprog {
 		return lib.Infra("more than half of the programs (%d of %d) left the model: generator and specification have drifted apart", oom, nprog)
